@@ -292,6 +292,107 @@ class Pipe(object):
     def home(self):
         return self.feed("G28")
 
+    # ---- IND: an arbitrary filter state that satisfies the coupling invariant "tracked frame == file's frame"
+    def havoc_not_excluding(self, g90e=False, retraction="any"):
+        """Replace the tracked state by an arbitrary one outside an episode and make V (and P) agree with it.
+
+        Invariant built: axes homed (current known), offsets 0 (G92 X/Y/Z and M206 are outside the claims), X/Y/Z
+        mode and unit multiplier arbitrary, E absolute (or following G90/G91 when g90e), feed rate arbitrary,
+        exclusion enabled, not excluding, nothing pending, lastRetraction None or an arbitrary retraction whose recovery
+        was not skipped.  V/P: same native position, E register, modes and units."""
+        w = self.w
+        st = self.state
+        env = w.env
+        inch = w.flag("ind-inch")
+        rel = w.flag("ind-relative")
+        u = 25.4 if inch else 1.0
+        pos = st.position
+        vals = {}
+        for name, axis in (("X", pos.X_AXIS), ("Y", pos.Y_AXIS), ("Z", pos.Z_AXIS), ("E", pos.E_AXIS)):
+            v = w.real("ind_%s" % name)
+            axis.current = v
+            axis.offset = 0.0
+            axis.homeOffset = 0.0
+            axis.unitMultiplier = u
+            axis.absoluteMode = (not rel) if name != "E" else (not (rel and g90e))
+            vals[name] = v
+        st.feedRate = w.real("ind_F")
+        w.assume(st.feedRate >= 0)
+        st.feedRateUnitMultiplier = u
+        st.excluding = False
+        st._exclusionEnabled = True
+        st.pendingCommands.clear()
+        st.lastPosition = None
+        st.numCommands = 7
+        RS = env.RetractionState
+        sel = w.choose(4, "ind-retraction") if retraction == "any" else 0
+        if sel == 0:
+            st.lastRetraction = None
+        elif sel in (1, 2):
+            amt = w.real("ind_ret_amount")
+            w.assume(amt > 0)
+            fr = w.real("ind_ret_feed")
+            w.assume(fr >= 0)
+            st.lastRetraction = RS(originalCommand="G1 E-1", firmwareRetract=False, extrusionAmount=amt, feedRate=fr)
+            st.lastRetraction.allowCombine = (sel == 1)
+        else:
+            st.lastRetraction = RS(originalCommand="G10 S1", firmwareRetract=True)
+            st.lastRetraction.allowCombine = w.flag("ind-combine")
+        from fractions import Fraction
+        uu = (Fraction(254, 10) if inch else 1) if w.symbolic else u
+        for pr in (self.V, self.P):
+            pr.x, pr.y, pr.z, pr.e = vals["X"], vals["Y"], vals["Z"], vals["E"]
+            pr.u = uu
+            pr.abs_xyz = not rel
+            pr.abs_e = not (rel and g90e)
+            pr.homed = True
+            pr.feed = st.feedRate
+        self.ep = False
+        return vals
+
+    def havoc_excluding(self, g90e=False):
+        """Arbitrary filter state INSIDE an episode, coupled with V and P by the invariant
+
+            tracked frame == V's;  P's X/Y = where the tool was parked at entry (arbitrary);
+            P's Z = the Z recorded at entry (lastPosition);  P's modes and units == V's (mode/unit commands pass through);
+            P's E register arbitrary (re-synchronised by G92 on leaving);  the oracle's episode flag is set.
+        """
+        w = self.w
+        vals = self.havoc_not_excluding(g90e)
+        st = self.state
+        P = self.P
+        st.excluding = True
+        st.excludeStartTime = 0.0
+        st.numExcludedCommands = 3
+        lp = w.env.Position(st.position)
+        lp.X_AXIS.current = w.real("ind_entry_X")
+        lp.Y_AXIS.current = w.real("ind_entry_Y")
+        lp.Z_AXIS.current = w.real("ind_entry_Z")
+        st.lastPosition = lp
+        P.x, P.y, P.z = w.real("ind_P_X"), w.real("ind_P_Y"), lp.Z_AXIS.current
+        P.e = w.real("ind_P_E")
+        lr = st.lastRetraction
+        if lr is not None:
+            lr.recoverExcluded = w.flag("ind-recover-excluded")
+        self.ep = True
+        return vals
+
+    def tracked_equals_file(self, include_e=True):
+        """The coupling invariant after a step: tracked position/frame == V's."""
+        pos = self.state.position
+        V = self.V
+        conds = [alg.eq(pos.X_AXIS.current, V.x), alg.eq(pos.Y_AXIS.current, V.y), alg.eq(pos.Z_AXIS.current, V.z)]
+        if include_e:
+            conds.append(alg.eq(pos.E_AXIS.current, V.e))
+        for ax in (pos.X_AXIS, pos.Y_AXIS, pos.Z_AXIS):
+            conds.append(ax.absoluteMode == V.abs_xyz)
+            conds.append(alg.eq(ax.unitMultiplier, V.u))
+            conds.append(alg.eq(ax.offset, 0))
+        conds.append(pos.E_AXIS.absoluteMode == V.abs_e)
+        conds.append(alg.eq(pos.E_AXIS.unitMultiplier, V.u))
+        conds.append(alg.eq(self.state.feedRateUnitMultiplier, V.u))
+        return alg.and_(*conds)
+
     def prologue(self):
         """PRINT prologue: G28 through the real handler, then one positioning move with arbitrary
         X/Y/Z/E/F whose destination is assumed to be outside every region (so the tool, the extruder
